@@ -89,12 +89,66 @@ Definition doc_single (t : tree) (d : dline) (meant : bytes) : dsingle :=
     else DSUnk
   end end.
 
+(* ---- round 6: a wildcard in the last element of the src= value ----
+   The manual: "src=  Name of source file, directory or device node to use as source data for the
+   entry to be created.  Recursively copies source-directory entries if name is of a directory.
+   ... Prefix the path with $$stageroot to indicate paths relative to the build root", and for
+   asterisks: "If type is dir, globbing applies recursively to that directory.  For other entry
+   types, globbing is not recursive."  It has no sentence on an asterisk inside the src= value, so at
+   LINE level such a value stays unspecified (status Free: whether the line is taken, and as which
+   entry, is read off the parser model, which the line stream compares with the code).  What is
+   specified here is the effect on the list of an entry that WAS taken with a wildcard source below
+   the build root: the source entries are those the pattern matches in the source directory (with
+   everything below them for type dir, only they otherwise), and they are copied as
+   source-directory entries are copied: each appears below the line's name at the path it has
+   RELATIVE to the source directory -- <name>/<sub>/<file> for <srcdir>/<sub>/<file> -- and nothing
+   else changes.  (The set of matches is [StageWild.glob], the matcher characterised by
+   C17_gmatch_spec.)  Open (DUnk): sources not below $$stageroot, escapes in the directory part,
+   patterns outside the glob model, no match at all. *)
+Definition doc_src_wild (t : tree) (names : list bytes) (e : entry) : dres :=
+  match stageroot_tail (e_source e) with
+  | None => DUnk
+  | Some tail =>
+    if existsb (fun c => Ascii.eqb c c_bsl) (fst (pathsplit (clean tail))) then DUnk
+    else match glob t tail with
+         | GOk ms =>
+           let ms' := if e_ltype e =? V_FileType_dir then expand t ms else ms in
+           let d := clean (fst (pathsplit (clean tail))) in
+           let chop := if beq d [c_slash] then O else length d in
+           match ms' with
+           | [] => DUnk
+           | _ => DOk (fold_left (fun l n => nadd n l)
+                                 (map (fun m => clean (e_name e ++ c_slash :: skipn chop m)) ms') names)
+           end
+         | _ => DUnk
+         end
+  end.
+Definition doc_src_step (t : tree) (names : list bytes) (sl : sline) : dres :=
+  match sl_fields sl with
+  | _ :: fn :: _ =>
+    match doc_name (f_toks fn) with
+    | MustAccept =>
+      match parse_line (render_line (sline_core sl)) with
+      | LRes true true e0 =>
+        let e := unescape_asterisks e0 in
+        match e_source e with
+        | _ :: _ => if e_wild e then doc_src_wild t names e else DUnk
+        | [] => DUnk
+        end
+      | _ => DUnk
+      end
+    | _ => DUnk
+    end
+  | _ => DUnk
+  end.
+
 (* one structured line on the current name set *)
 Definition doc_step (t : tree) (names : list bytes) (sl : sline) : dres :=
   let d := doc_line sl in
   match d_status d with
   | MustReject => DErr
-  | Either | Free => DUnk
+  | Either => DUnk
+  | Free => doc_src_step t names sl
   | MustAccept =>
     match sl_fields sl with
     | _ :: fn :: _ =>
